@@ -54,8 +54,12 @@ static void print_state(const char* tag, int id, const Polyhedron& orig) {
   print_cons(std::cout, c->constraints(), d); std::cout << " ";
   Polyhedron* c2 = clone(orig);
   print_gens(std::cout, c2->generators(), d);
-  std::cout << " ok " << (orig.OK() ? 1 : 0) << "\n";
-  delete c; delete c2;
+  std::cout << " ok " << (orig.OK() ? 1 : 0);
+  // dimension of the lineality space (from a third copy)
+  Polyhedron* c3 = clone(orig); unsigned nl = 0;
+  if (!c3->is_empty()) { const Generator_System& mg = c3->minimized_generators(); for (Generator_System::const_iterator i = mg.begin(); i != mg.end(); ++i) if (i->is_line()) ++nl; }
+  std::cout << " lin " << nl << "\n";
+  delete c; delete c2; delete c3;
 }
 static Polyhedron* make(bool c, unsigned dim, Degenerate_Element k) {
   return c ? (Polyhedron*) new C_Polyhedron(dim, k) : (Polyhedron*) new NNC_Polyhedron(dim, k);
